@@ -18,6 +18,15 @@ Theorem C07_expired_node_aborts : forall zt osort k f b d ply a be n s,
   exists s', alpha_beta zt osort k (S f) b d ply a be n s = Ok (NEG_INF, s') /\ table s' = table s.
 Proof. exact abort_at_node_entry. Qed.
 
+(* the same in the capture search: every quiescence node consults the clock and an expired one returns at once
+   (the repair of F11: before it the capture search never looked at the clock) *)
+Theorem C07_expired_quiescence_aborts : forall zt osort k f b a be s,
+  fst (out_of_time k s) = true ->
+  quiesce zt osort k (S f) b a be s = Ok (NEG_INF, snd (out_of_time k s)).
+Proof.
+  intros zt osort k f b a be s H. cbn [quiesce]. destruct (out_of_time k s) as [e s1]. cbn [fst snd] in *. subst e. reflexivity.
+Qed.
+
 (* the clock is monotone: once expired it stays expired, so an aborted value can never be followed
    by a successful `!out_of_time` test at the root *)
 Theorem C07_clock_monotone : forall k s,
@@ -66,9 +75,9 @@ Theorem C07_node_restores_table : forall zt osort k fuel b d ply a be n s v s',
 Proof. intros zt osort k fuel. exact (alpha_beta_restores zt osort k fuel). Qed.
 
 (* quiescence never touches the record *)
-Theorem C07_quiescence_leaves_table : forall zt osort fuel b a be s v s',
-  quiesce zt osort fuel b a be s = Ok (v, s') -> table s' = table s.
-Proof. intros zt osort fuel. exact (quiesce_pres zt osort fuel). Qed.
+Theorem C07_quiescence_leaves_table : forall zt osort k fuel b a be s v s',
+  quiesce zt osort k fuel b a be s = Ok (v, s') -> table s' = table s.
+Proof. intros zt osort k fuel. exact (quiesce_pres zt osort k fuel). Qed.
 
 (* (d) add followed by remove leaves every count of the record as it was *)
 Theorem C07_table_add_remove : forall t s k, dt_count (dt_remove (dt_add t s) s) k = dt_count t k.
@@ -76,6 +85,7 @@ Proof. exact dt_count_remove_add. Qed.
 
 Print Assumptions C07_handed_back_is_root_move.
 Print Assumptions C07_expired_node_aborts.
+Print Assumptions C07_expired_quiescence_aborts.
 Print Assumptions C07_clock_monotone.
 Print Assumptions C07_abort_value_not_a_cp_score.
 Print Assumptions C07_table_add_remove.
